@@ -191,6 +191,26 @@ func ManageHAProxyEndpoints(haproxyEndpoints *HAProxyEndpointsRequest) error {
 	return nil
 }
 
+// EndpointsToUnmanage returns the endpoints of previous that current no longer
+// registers. The two lists are built independently of each other, so endpoints
+// are compared by their registered expression and not by pointer.
+func EndpointsToUnmanage(
+	previous []*HAProxyEndpointData,
+	current []*HAProxyEndpointData,
+) []*HAProxyEndpointData {
+	stillManaged := make(map[string]struct{}, len(current))
+	for _, endpoint := range current {
+		stillManaged[endpoint.Endpoint] = struct{}{}
+	}
+	toUnmanage := []*HAProxyEndpointData{}
+	for _, endpoint := range previous {
+		if _, found := stillManaged[endpoint.Endpoint]; !found {
+			toUnmanage = append(toUnmanage, endpoint)
+		}
+	}
+	return toUnmanage
+}
+
 func unmanageHAProxyEndpoints(unmanagedEndpoints []*HAProxyEndpointData) error {
 	for _, unmanagedEndpoint := range unmanagedEndpoints {
 		err := operateEndpoint(unmanagedEndpoint.Endpoint, http.MethodDelete, haproxyManagedEndpointURL)
